@@ -333,6 +333,8 @@ def base_histories(kind):
     hs.append(("two-acq", Hist(kind, '{"k":[1,2]}').set(u1).start().append(sz(8)).append(sz(0, 24)).stop()
                .set(u2).start().append(sz(8)).close()))
     hs.append(("misuse", Hist(kind).start().set(u1).start().start().append(sz(8)).stop().stop().append(sz(8)).close()))
+    # an acquisition, then another one with the same device on the same path (after a failed write: the device must have let go of the file)
+    hs.append(("retry-same-path", Hist(kind, '{"r":1}').set(u1).start().append(sz(8)).append(sz(16)).stop().set(u1).start().append(sz(8, 8)).stop().close()))
     # a start in the middle of an acquisition is refused and must leave the file being written alone
     hs.append(("start-while-running", Hist(kind).set(u1).start().append(sz(8)).start().append(sz(16, 3)).stop().close()))
     hs.append(("bad-meta", Hist(kind, "{x").set(u1).start().set(u1, "-").start().append(sz(8)).close()))
@@ -388,12 +390,13 @@ def short_write_faults(rng, calls, density):
     return toks
 
 
-def exhaustive_fault_cases(drv, kinds=("raw", "tiff", "sxs", "trash")):
-    """every fault index x fault kind of every base history of every device kind"""
+def exhaustive_fault_cases(drv, kinds=("raw", "tiff", "sxs", "trash"), only=None):
+    """every fault index x fault kind of every base history (or of those named in `only`) of every device kind"""
     bases = []
     for k in kinds:
         for tag, h in base_histories(k):
-            bases.append(h.case(tag="%s/%s" % (k, tag)))
+            if only is None or tag in only:
+                bases.append(h.case(tag="%s/%s" % (k, tag)))
     script = "\n".join("\n".join(c.lines()) for c in bases) + "\n"
     rc, out, err = C.run_lines(drv, script, timeout=120)
     per = split_cases(out)
